@@ -1,5 +1,32 @@
 package pc
 
+import (
+	"encoding/json"
+	"flag"
+	"fmt"
+	"io"
+	"io/fs"
+	"os"
+	"os/exec"
+	"path/filepath"
+	"sort"
+	"strings"
+	"sync"
+)
+
+// Mutant is one seeded semantic break of /repo used to validate the checker.
+type Mutant struct {
+	ID       string `json:"id"`
+	Property string `json:"property"`
+	Rule     string `json:"expected_rule"`
+	KeyPart  string `json:"expected_key_contains,omitempty"`
+	File     string `json:"file"`
+	Old      string `json:"old"`
+	New      string `json:"new"`
+	Note     string `json:"note,omitempty"`
+	Survives *bool  `json:"survives_suite,omitempty"`
+}
+
 // SelftestResult summarises the checker self-validation of one property.
 type SelftestResult struct {
 	OK       bool     `json:"ok"`
@@ -10,6 +37,202 @@ type SelftestResult struct {
 	Details  []string `json:"details,omitempty"`
 }
 
-func Selftest(id, vdir, repo string) SelftestResult { return SelftestResult{OK: true} }
+func loadMutants(vdir string) []Mutant {
+	files, _ := filepath.Glob(filepath.Join(vdir, "mutants", "*.json"))
+	sort.Strings(files)
+	var out []Mutant
+	for _, f := range files {
+		b, err := os.ReadFile(f)
+		if err != nil {
+			fatalf("read %s: %v", f, err)
+		}
+		var ms []Mutant
+		if err := json.Unmarshal(b, &ms); err != nil {
+			fatalf("parse %s: %v", f, err)
+		}
+		out = append(out, ms...)
+	}
+	return out
+}
 
-func CmdSelftest(args []string, vdir string) int { return 0 }
+func copyTree(src, dst string) error {
+	return filepath.WalkDir(src, func(path string, d fs.DirEntry, err error) error {
+		if err != nil {
+			return err
+		}
+		rel, _ := filepath.Rel(src, path)
+		if d.IsDir() {
+			if d.Name() == ".git" {
+				return filepath.SkipDir
+			}
+			return os.MkdirAll(filepath.Join(dst, rel), 0o755)
+		}
+		if !d.Type().IsRegular() {
+			return nil
+		}
+		in, err := os.Open(path)
+		if err != nil {
+			return err
+		}
+		defer in.Close()
+		out, err := os.Create(filepath.Join(dst, rel))
+		if err != nil {
+			return err
+		}
+		if _, err := io.Copy(out, in); err != nil {
+			out.Close()
+			return err
+		}
+		return out.Close()
+	})
+}
+
+// runMutant applies m to a scratch copy of repo and runs the property's rules on it in a child process.
+// It returns (applicable, detected, detail).
+func runMutant(m Mutant, repo string) (bool, bool, string) {
+	src, err := os.ReadFile(filepath.Join(repo, m.File))
+	if err != nil {
+		return false, false, "file missing: " + m.File
+	}
+	if strings.Count(string(src), m.Old) != 1 {
+		return false, false, fmt.Sprintf("stale: old text occurs %d times in %s", strings.Count(string(src), m.Old), m.File)
+	}
+	tmp, err := os.MkdirTemp("", "pqlmut-")
+	if err != nil {
+		return true, false, err.Error()
+	}
+	defer os.RemoveAll(tmp)
+	if err := copyTree(repo, tmp); err != nil {
+		return true, false, "copy: " + err.Error()
+	}
+	mutated := strings.Replace(string(src), m.Old, m.New, 1)
+	if err := os.WriteFile(filepath.Join(tmp, m.File), []byte(mutated), 0o644); err != nil {
+		return true, false, err.Error()
+	}
+	exe, _ := os.Executable()
+	cmd := exec.Command(exe, "check", m.Property, "--tier", "quick", "--repo", tmp, "--no-evidence")
+	cmd.Env = append(os.Environ(), "VERIF_DIR="+verifDirOf(exe))
+	out, _ := cmd.CombinedOutput()
+	text := string(out)
+	if strings.Contains(text, "does not type-check") {
+		return true, false, "mutant does not type-check: " + firstLine(text)
+	}
+	for _, line := range strings.Split(text, "\n") {
+		line = strings.TrimSpace(line)
+		if !strings.HasPrefix(line, "violation ") {
+			continue
+		}
+		if strings.HasPrefix(line, "violation "+m.Rule+" ") && (m.KeyPart == "" || strings.Contains(line, m.KeyPart)) {
+			return true, true, line
+		}
+	}
+	if strings.Contains(text, "VIOLATION property="+m.Property) {
+		return true, false, "violation reported, but not by the expected rule " + m.Rule + ": " + grepFirst(text, "violation ")
+	}
+	return true, false, "no violation reported: " + firstLine(text)
+}
+
+func verifDirOf(exe string) string {
+	if d := os.Getenv("VERIF_DIR"); d != "" {
+		return d
+	}
+	return filepath.Dir(exe)
+}
+
+func firstLine(s string) string {
+	if i := strings.Index(s, "\n"); i >= 0 {
+		return s[:i]
+	}
+	return s
+}
+
+func grepFirst(s, pfx string) string {
+	for _, l := range strings.Split(s, "\n") {
+		if strings.HasPrefix(strings.TrimSpace(l), pfx) {
+			return strings.TrimSpace(l)
+		}
+	}
+	return ""
+}
+
+// Selftest runs the property's seeded-break corpus; every applicable mutant must be reported by its expected rule.
+func Selftest(id, vdir, repo string) SelftestResult {
+	var mine []Mutant
+	for _, m := range loadMutants(vdir) {
+		if m.Property == id {
+			mine = append(mine, m)
+		}
+	}
+	res := SelftestResult{OK: true}
+	type outT struct {
+		m                    Mutant
+		applicable, detected bool
+		detail               string
+	}
+	outs := make([]outT, len(mine))
+	var wg sync.WaitGroup
+	sem := make(chan struct{}, 8)
+	for i, m := range mine {
+		wg.Add(1)
+		go func(i int, m Mutant) {
+			defer wg.Done()
+			sem <- struct{}{}
+			defer func() { <-sem }()
+			a, d, det := runMutant(m, repo)
+			outs[i] = outT{m, a, d, det}
+		}(i, m)
+	}
+	wg.Wait()
+	for _, o := range outs {
+		switch {
+		case !o.applicable:
+			res.Stale = append(res.Stale, o.m.ID+": "+o.detail)
+		case o.detected:
+			res.Mutants++
+			res.Detected++
+			res.Details = append(res.Details, o.m.ID+": detected: "+o.detail)
+		default:
+			res.Mutants++
+			res.Missed = append(res.Missed, o.m.ID+": "+o.detail)
+			res.OK = false
+		}
+	}
+	if res.Mutants < 2 {
+		res.OK = false
+		res.Details = append(res.Details, fmt.Sprintf("only %d applicable mutants for %s (need >= 2)", res.Mutants, id))
+	}
+	return res
+}
+
+// CmdSelftest implements `pqlcheck selftest <Cxx|all> [--repo DIR]`.
+func CmdSelftest(args []string, vdir string) int {
+	fset := flag.NewFlagSet("selftest", flag.ExitOnError)
+	repo := fset.String("repo", "/repo", "module root")
+	var ids []string
+	for len(args) > 0 && !strings.HasPrefix(args[0], "-") {
+		ids = append(ids, args[0])
+		args = args[1:]
+	}
+	fset.Parse(args)
+	if len(ids) == 0 || ids[0] == "all" {
+		ids = PropertyIDs()
+	}
+	code := 0
+	for _, id := range ids {
+		res := Selftest(id, vdir, *repo)
+		fmt.Printf("selftest %s: %d/%d mutants detected, %d stale\n", id, res.Detected, res.Mutants, len(res.Stale))
+		for _, d := range res.Details {
+			fmt.Println("   ", d)
+		}
+		for _, d := range res.Stale {
+			fmt.Println("    STALE", d)
+		}
+		for _, d := range res.Missed {
+			fmt.Println("    MISSED", d)
+		}
+		if !res.OK {
+			code = 2
+		}
+	}
+	return code
+}
